@@ -59,8 +59,8 @@ func evalBytes(e ast.Expr) ([]byte, error) {
 		}
 		out := make([]byte, 0, len(x.Elts))
 		for _, el := range x.Elts {
-			bl, ok := el.(*ast.BasicLit)
-			if !ok {
+			bl, ok := ast.Unparen(el).(*ast.BasicLit)
+			if !ok || (bl.Kind != token.INT && bl.Kind != token.CHAR) {
 				return nil, fmt.Errorf("non-literal element in []byte literal")
 			}
 			v := constant.ToInt(constant.MakeFromLiteral(bl.Value, bl.Kind, 0))
@@ -75,13 +75,19 @@ func evalBytes(e ast.Expr) ([]byte, error) {
 	return nil, fmt.Errorf("unsupported expression %T", e)
 }
 
-// rawDescOf returns the bytes of `file_api_proto_rawDesc` declared in file.
+// rawDescOf returns the bytes of the raw file descriptor that file registers.
+// The variable is found by its role, not its name: it is the package-level
+// variable or constant mentioned in the `RawDescriptor:` element of the
+// protoimpl.DescBuilder literal (directly, or inside unsafe.Slice(unsafe.StringData(x), len(x))
+// as newer protoc-gen-go versions write it). Only if no such element exists is
+// the conventional name `file_api_proto_rawDesc` looked up.
 func rawDescOf(file string) ([]byte, error) {
 	fset := token.NewFileSet()
 	f, err := parser.ParseFile(fset, file, nil, parser.SkipObjectResolution)
 	if err != nil {
 		return nil, err
 	}
+	decls := map[string]ast.Expr{}
 	for _, d := range f.Decls {
 		gd, ok := d.(*ast.GenDecl)
 		if !ok || (gd.Tok != token.VAR && gd.Tok != token.CONST) {
@@ -90,13 +96,48 @@ func rawDescOf(file string) ([]byte, error) {
 		for _, s := range gd.Specs {
 			vs := s.(*ast.ValueSpec)
 			for i, n := range vs.Names {
-				if n.Name == "file_api_proto_rawDesc" && i < len(vs.Values) {
-					return evalBytes(vs.Values[i])
+				if i < len(vs.Values) {
+					decls[n.Name] = vs.Values[i]
 				}
 			}
 		}
 	}
-	return nil, fmt.Errorf("%s: no file_api_proto_rawDesc", file)
+	var cands []string
+	seen := map[string]bool{}
+	ast.Inspect(f, func(n ast.Node) bool {
+		kv, ok := n.(*ast.KeyValueExpr)
+		if !ok {
+			return true
+		}
+		if k, ok := kv.Key.(*ast.Ident); !ok || k.Name != "RawDescriptor" {
+			return true
+		}
+		ast.Inspect(kv.Value, func(m ast.Node) bool {
+			if id, ok := m.(*ast.Ident); ok && decls[id.Name] != nil && !seen[id.Name] {
+				seen[id.Name] = true
+				cands = append(cands, id.Name)
+			}
+			return true
+		})
+		return true
+	})
+	var firstErr error
+	for _, c := range cands {
+		b, err := evalBytes(decls[c])
+		if err == nil && len(b) > 0 {
+			return b, nil
+		}
+		if firstErr == nil && err != nil {
+			firstErr = fmt.Errorf("%s: %s: %v", file, c, err)
+		}
+	}
+	if firstErr != nil {
+		return nil, firstErr
+	}
+	if e := decls["file_api_proto_rawDesc"]; e != nil {
+		return evalBytes(e)
+	}
+	return nil, fmt.Errorf("%s: no RawDescriptor registration and no file_api_proto_rawDesc", file)
 }
 
 func descFromPbgo(repo, ver string) *Desc {
@@ -302,6 +343,7 @@ func descFromProto(fd *descriptorpb.FileDescriptorProto) (*Desc, error) {
 		return nil, err
 	}
 	sort.Strings(d.File.Deps)
+	d.normalise()
 	d.sort()
 	return d, nil
 }
